@@ -132,8 +132,6 @@ func bytesEqual(a, b) (r)
 func Vote(ctx, id, from) (n)
   logged
   requires [C17] W(from)
-  // stored lists are well-formed values (A13)
-  requires forall q Int {ballots(store)[q]} :: 0 <= q && q < len(ballots(store)) ==> len(ballots(store)[q].Voters) >= 0
   ensures [C17] n >= 1
   // only the ballot list is written, nothing is notified
   ensures [C17] forall k Bytes {store.opt(k)} :: k != "ballots" ==> store.opt(k) == old(store).opt(k)
@@ -153,7 +151,7 @@ func Vote(ctx, id, from) (n)
   ensures [C17] store != old(store) ==> n == (fnd(ballots(old(store)), len(ballots(old(store))), id) < 0 ? 1 : fnd(ballots(old(store)), len(ballots(old(store))), id))
   loop 0
     invariant store == old(store) && candidates == ballots(old(store)) && $i <= len(candidates)
-    invariant found == fnd(candidates, $i, id)
+    invariant found == fnd(candidates, $i, id) && (found == 0 - 1 || found >= 1)
     invariant len(newCandidates) == cl(candidates, $i)
     invariant forall q Int {candidates[q]} :: 0 <= q && q < $i && live(candidates[q]) ==>
         newCandidates[cl(candidates, q)] == (candidates[q].ID == id ? Ballot{id, push(candidates[q].Voters, from), blockHeight} : candidates[q])
